@@ -95,10 +95,15 @@ type Scenario struct {
 }
 
 // RunOnce executes the scenario under the schedule given by prefix (then canonical).
-func RunOnce(t *testing.T, sc Scenario, prefix []int, onLeak func(string)) (res Result) {
+// An optional demote names a thread that is scheduled only when nothing else is enabled
+// (starvation schedule).
+func RunOnce(t *testing.T, sc Scenario, prefix []int, onLeak func(string), demote ...string) (res Result) {
 	e2.Run(t, func(w *e2.World) {
 		w.OnLeak = onLeak
 		s := vsched.New(prefix)
+		if len(demote) > 0 {
+			s.Demote = demote[0]
+		}
 		if sc.Horizon > 0 {
 			s.Horizon = sc.Horizon
 		}
@@ -185,6 +190,7 @@ type Stats struct {
 type Replay struct {
 	Scenario string   `json:"scenario"`
 	Choices  []int    `json:"choices"`
+	Demote   string   `json:"demote,omitempty"` // starvation schedule: this thread runs only when nothing else can
 	Schedule []string `json:"schedule,omitempty"`
 }
 
@@ -212,7 +218,13 @@ func Explore(c *vfw.Ctx, t *testing.T, sc Scenario, bound int) Stats {
 			Replay{Scenario: sc.Name, Choices: current})
 		c.Abort("wedged execution")
 	}
-	defer func() { e2.OnWedge = nil }()
+	curDemote := ""
+	e2.OnDeadlock = func(report string) {
+		c.Violate(sc.Name+":deadlock", fmt.Sprintf("scenario %s, choice prefix %v (demoted thread %q): every goroutine is blocked forever while the harness still waits for a call to return:\n%s", sc.Name, current, curDemote, report[:min(len(report), 3000)]),
+			Replay{Scenario: sc.Name, Choices: current, Demote: curDemote})
+		c.Abort("deadlocked execution")
+	}
+	defer func() { e2.OnWedge, e2.OnDeadlock = nil, nil }()
 	handle := func(r Result, prefix []int) bool {
 		st.Execs++
 		c.Case(len(r.Trace) > 0)
@@ -239,7 +251,7 @@ func Explore(c *vfw.Ctx, t *testing.T, sc Scenario, bound int) Stats {
 			full := r.Choices()
 			same := true
 			for k := 0; k < 2 && same; k++ {
-				r2 := RunOnce(t, sc, full, onLeak)
+				r2 := RunOnce(t, sc, full, onLeak, curDemote)
 				same = violKeys(r2) == violKeys(r) && r2.Diverged == ""
 			}
 			if !same {
@@ -249,8 +261,12 @@ func Explore(c *vfw.Ctx, t *testing.T, sc Scenario, bound int) Stats {
 				return true
 			}
 			for _, v := range r.Viols {
-				c.Violate(sc.Name+":"+v.Key, fmt.Sprintf("scenario %s, schedule with %d departures %v: %s", sc.Name, departures(full), scheduleText(r), v.Desc),
-					Replay{Scenario: sc.Name, Choices: full, Schedule: scheduleText(r)})
+				how := fmt.Sprintf("schedule with %d departures %v", departures(full), scheduleText(r))
+				if curDemote != "" {
+					how = fmt.Sprintf("starvation schedule (thread %s runs only when nothing else can)", curDemote)
+				}
+				c.Violate(sc.Name+":"+v.Key, fmt.Sprintf("scenario %s, %s: %s", sc.Name, how, v.Desc),
+					Replay{Scenario: sc.Name, Choices: full, Demote: curDemote, Schedule: scheduleText(r)})
 			}
 		} else if c.WantSample() && departures(r.Choices()) > 0 {
 			c.Sample(map[string]any{"scenario": sc.Name, "departures": scheduleText(r), "decisions": len(r.Trace), "outcome": r.Outcome})
@@ -313,6 +329,37 @@ func Explore(c *vfw.Ctx, t *testing.T, sc Scenario, bound int) Stats {
 			}
 		}
 	}
+	// starvation sweep: for every thread seen in the canonical execution, one execution in
+	// which that thread is scheduled only when nothing else is enabled. Departure bounding
+	// cannot reach "one goroutine lags behind everything else for a long stretch"; this
+	// family of P schedules (P = number of threads) does, at the cost of P executions.
+	names := map[string]bool{}
+	for _, d := range root.Trace {
+		for _, n := range d.Enabled {
+			if !strings.HasPrefix(n, "case") {
+				names[n] = true
+			}
+		}
+	}
+	sorted := make([]string, 0, len(names))
+	for n := range names {
+		sorted = append(sorted, n)
+	}
+	sort.Strings(sorted)
+	for i, n := range sorted {
+		if c.Shards > 1 && i%c.Shards != c.Shard {
+			continue
+		}
+		if c.Expired() {
+			st.Complete = false
+			break
+		}
+		curDemote, current = n, nil
+		r := RunOnce(t, sc, nil, onLeak, n)
+		handle(r, nil)
+		c.Add("starvation_schedules:"+sc.Name, 1)
+	}
+	curDemote = ""
 	if !st.Complete {
 		c.Incomplete(fmt.Sprintf("scenario %s bound %d not completed (deadline, divergence or flaky schedule)", sc.Name, bound))
 	}
